@@ -340,8 +340,12 @@ Definition ctx_start_func (cfg : deviations) (W : world) (f : func) : world :=
     if f_new f then dm_begin cfg W f
     else leg_func_start (set_delayed W (deln (f_gen f) (w_delayed W))) f
   else W.
-Definition ctx_start (cfg : deviations) (c : N) (W : world) : world :=
-  let W1 := fold_left (fun W f => if N.eqb (f_ctx f) c then ctx_start_func cfg W f else W) (w_funcs W) W in
+(* GlobalContext.start iterates the *sets* triggers_delay_start / dms_delay_start: the order is an input ([ord] lists
+   generations in iteration order; functions not listed follow in definition order) *)
+Definition order_funcs (ord : list N) (fs : list func) : list func :=
+  flat_map (fun g => filter (fun f => N.eqb (f_gen f) g) fs) ord ++ filter (fun f => negb (memn (f_gen f) ord)) fs.
+Definition ctx_start (cfg : deviations) (c : N) (ord : list N) (W : world) : world :=
+  let W1 := fold_left (fun W f => if N.eqb (f_ctx f) c then ctx_start_func cfg W f else W) (order_funcs ord (w_funcs W)) W in
   set_auto W1 (addn c (w_auto W1)).
 
 (* -- definition of a decorated function ---------------------------------------------------------- *)
@@ -454,7 +458,7 @@ Inductive op :=
   | ODefine (c : N) (newsys : bool) (s : fspec)   (* a decorated `def` is evaluated in context c *)
   | ODropped (g : N)                              (* last reference to generation g's function object dropped *)
   | OCtxAuto (c : N) (b : bool)                   (* GlobalContext.set_auto_start *)
-  | OCtxStart (c : N)                             (* set_auto_start(True); GlobalContext.start() *)
+  | OCtxStart (c : N) (ord : list N)              (* set_auto_start(True); GlobalContext.start(), delayed starts in order ord *)
   | OCtxStop (c : N)                              (* GlobalContext.stop / GlobalContextMgr.delete *)
   | OUnload                                       (* unload_scripts(unload_all=True) + reaper/waiter shutdown *)
   | OPrologue (u : N)                             (* scheduler: legacy trigger task u runs up to its first wait *)
@@ -469,7 +473,7 @@ Definition step (cfg : deviations) (W : world) (o : op) : world :=
   | ODefine c n s => define cfg c n s W
   | ODropped g => dropped cfg g W
   | OCtxAuto c b => set_auto W (if b then addn c (w_auto W) else deln c (w_auto W))
-  | OCtxStart c => ctx_start cfg c W
+  | OCtxStart c ord => ctx_start cfg c ord W
   | OCtxStop c => ctx_stop cfg c W
   | OUnload => unload cfg W
   | OPrologue u => prologue u W
